@@ -133,46 +133,50 @@ fn thread_pre() {
 fn thread_post() {
     tick();
 }
-/// the live task, pinned on tokio::spawn's stack frame: drives the rest of the schedule
+/// Drives the rest of the schedule around the polls of the live task (which `tokio::spawn`
+/// performs itself on its statically typed, stack-pinned future - env::sched TASK_DRIVER).
 #[allow(static_mut_refs)]
-fn task_hook(mut fut: core::pin::Pin<&mut dyn core::future::Future<Output = ()>>) {
+fn task_driver(step: u32, done: bool) -> bool {
     unsafe {
-        if OBS.ran {
-            return; // a second task (heartbeat) is not driven by this harness
-        }
-        OBS.ran = true;
-        if OBS.tail {
-            tick(); // no history thread ran: this is the first gap after subscribe
+        if step == 0 {
+            if OBS.ran {
+                return false; // a second task (heartbeat) is not driven by this harness
+            }
+            OBS.ran = true;
+            if OBS.tail {
+                tick(); // no history thread ran: this is the first gap after subscribe
+            }
+            return true; // poll #1
         }
         let mut rx = env::tokio::sync::mpsc::Receiver::<Frame>::model_attach(0);
-        let mut done = sched::poll_dyn(&mut fut);
-        tick();
-        drain(&mut rx, &mut OBS.log, 2);
-        tick();
-        if !done {
-            done = sched::poll_dyn(&mut fut);
-        }
-        drain(&mut rx, &mut OBS.log, 8);
-        // quiescence: everything planned has fired, everything deliverable is delivered
-        let mut j = 0;
-        while j < 2 {
-            if PLAN.at[j] != u32::MAX && !PLAN.fired[j] {
-                PLAN.at[j] = PLAN.yc;
-                tick();
+        let more = if step == 1 {
+            tick();
+            drain(&mut rx, &mut OBS.log, 2);
+            tick();
+            true // poll #2
+        } else if step == 2 {
+            drain(&mut rx, &mut OBS.log, 8);
+            // quiescence: everything planned has fired
+            let mut j = 0;
+            while j < 2 {
+                if PLAN.at[j] != u32::MAX && !PLAN.fired[j] {
+                    PLAN.at[j] = PLAN.yc;
+                    tick();
+                }
+                j += 1;
             }
-            j += 1;
-        }
-        if !done {
-            done = sched::poll_dyn(&mut fut);
-        }
-        drain(&mut rx, &mut OBS.log, 8);
-        if !done {
-            done = sched::poll_dyn(&mut fut);
-        }
-        drain(&mut rx, &mut OBS.log, 8);
-        // the only sender left is read()'s own handle (dropped when read() returns)
-        OBS.closed = done && rx.model_senders() <= 1 && rx.model_len() == 0;
+            true // poll #3
+        } else if step == 3 {
+            drain(&mut rx, &mut OBS.log, 8);
+            true // poll #4
+        } else {
+            drain(&mut rx, &mut OBS.log, 8);
+            // the only sender left is read()'s own handle (dropped when read() returns)
+            OBS.closed = done && rx.model_senders() <= 1 && rx.model_len() == 0;
+            false
+        };
         core::mem::forget(rx);
+        more
     }
 }
 
@@ -184,18 +188,27 @@ fn task_hook(mut fut: core::pin::Pin<&mut dyn core::future::Future<Output = ()>>
 /// MODE bit 1: exclude the shapes listed in known_findings.json, so that any *other*
 /// violation of the same property still fails the twin instance.
 #[allow(static_mut_refs)]
-pub fn p_follow<const NH: usize, const NA: usize, const MODE: u8, const AT1: u32, const AT2: u32>() {
+pub fn p_follow<const NH: usize, const NA: usize, const MODE: u8, const AT1: u32, const AT2: u32, const CFG: u32>() {
+    // CFG bits (a symbolic choice that forks the store / queue state before further operations does
+    // not get through CBMC - probe: one symbolic stored/ephemeral bit = OOM at 40 GB, the same run
+    // with the bit fixed = 38 s - so the schedule and the kinds are enumerated per instance):
+    // 0 tail, 1 scoped, 2 reader ctx = CX, 3 use last-id, 4 hist[0] in CX, 5 hist[1] in CX,
+    // 6 append1 in CX, 7 append2 in CX, 8 append1 ephemeral, 9 append2 ephemeral, 10 snapshot iterators,
+    // 11-12 limit (MODE bit 0 only): 1..3
+    let bit = |k: u32| (CFG >> k) & 1 == 1;
     env::reset_all();
     unsafe {
         PLAN = Plan { yc: 0, at: [u32::MAX; 2], fired: [false; 2], ctx: [0; 2], eph: [false; 2], store: None };
     }
     env::fjall::set_limit(NH + NA + 1);
-    let snap = nd::any_bool();
+    let snap = bit(10);
     env::fjall::set_snapshot_iters(snap);
     let sut = mk_store(4);
     sut.store.contexts.write().unwrap().insert(sid(CX));
+    // solver-chosen residue: the wall clock (48-bit) - the xs.threshold id is drawn from it
+    env::stdm::time::set_clock(nd::any_u64() & 0xFFFF_FFFF_FFFF);
     // pre-history: concrete frames, context chosen by the solver
-    let hctx = [if nd::any_bool() { CX } else { 0 }, if nd::any_bool() { CX } else { 0 }];
+    let hctx = [if bit(4) { CX } else { 0 }, if bit(5) { CX } else { 0 }];
     let hid = [H1, H2];
     let mut i = 0;
     while i < NH {
@@ -208,11 +221,11 @@ pub fn p_follow<const NH: usize, const NA: usize, const MODE: u8, const AT1: u32
         i += 1;
     }
     // read options
-    let tail = nd::any_bool();
-    let scoped = nd::any_bool();
-    let qctx = if nd::any_bool() { CX } else { 0 };
-    let use_last = NH > 0 && nd::any_bool();
-    let limit = if MODE & 1 == 1 { Some(1 + nd::any_below(3) as usize) } else { None };
+    let tail = bit(0);
+    let scoped = bit(1);
+    let qctx = if bit(2) { CX } else { 0 };
+    let use_last = NH > 0 && bit(3);
+    let limit = if MODE & 1 == 1 { Some((((CFG >> 11) & 3) as usize).max(1)) } else { None };
     let opts = ReadOptions {
         follow: FollowOption::On,
         tail,
@@ -228,8 +241,8 @@ pub fn p_follow<const NH: usize, const NA: usize, const MODE: u8, const AT1: u32
             // the gap an append lands in is fixed per instance (const generic): a solver-chosen gap
             // means one guarded copy of the whole append per gap and did not finish in 20 min
             PLAN.at[j] = if j == 0 { AT1 } else { AT2 };
-            PLAN.ctx[j] = if nd::any_bool() { CX } else { 0 };
-            PLAN.eph[j] = nd::any_bool();
+            PLAN.ctx[j] = if bit(6 + j as u32) { CX } else { 0 };
+            PLAN.eph[j] = bit(8 + j as u32);
             j += 1;
         }
         // KF-C03-1: after the follower subscribed, an EPHEMERAL frame is appended and then a
@@ -250,7 +263,7 @@ pub fn p_follow<const NH: usize, const NA: usize, const MODE: u8, const AT1: u32
         sched::YIELD_HOOK = Some(hook);
         sched::THREAD_PRE = Some(thread_pre);
         sched::THREAD_POST = Some(thread_post);
-        sched::TASK_HOOK = Some(task_hook);
+        sched::TASK_DRIVER = Some(task_driver);
     }
     sched::set_inline(true);
     // the whole schedule runs inside read()'s spawn calls (env::sched INLINE)
@@ -323,9 +336,6 @@ pub fn p_follow<const NH: usize, const NA: usize, const MODE: u8, const AT1: u32
         } else {
             hx_check!(thresholds == 0, "C11 tail delivers no historical frame and no threshold");
         }
-        hx_cover!(g == m && m >= 1 && unsafe { PLAN.at[0] } >= 1 && unsafe { PLAN.at[0] } <= 3 && (!tail || NH == 0), "an append landing inside the historical replay window is delivered once");
-        hx_cover!(unsafe { PLAN.eph[0] } && g == m && m >= 1, "an ephemeral append is delivered live");
-        hx_cover!(scoped && g < NH + NA, "a frame of another context is filtered out");
     } else {
         let lim = match limit {
             Some(l) => l,
@@ -341,9 +351,8 @@ pub fn p_follow<const NH: usize, const NA: usize, const MODE: u8, const AT1: u32
         if expect_n == lim {
             hx_check!(stream_closed, "C11 the stream ends once the limit is reached");
         }
-        hx_cover!((NH + NA >= 2 && lim == 2 && g == 2) || (NH + NA < 2 && g == 1), "limit met");
-        hx_cover!(lim > m, "limit larger than what exists: the stream stays open");
     }
+    hx_cover!(unsafe { PLAN.fired[0] } && (NA < 2 || unsafe { PLAN.fired[1] }) && log.n >= 1, "the schedule ran to quiescence: every planned append fired and something was delivered");
     let mon = env::trace::mon();
     hx_check!(mon.broadcasts as usize == NA, "C11 synthetic frames are never broadcast: only the appends are");
     hx_check!(mon.commits as usize <= NA, "C11 synthetic frames are never stored");
@@ -354,7 +363,7 @@ pub fn p_follow<const NH: usize, const NA: usize, const MODE: u8, const AT1: u32
     unsafe {
         sched::THREAD_PRE = None;
         sched::THREAD_POST = None;
-        sched::TASK_HOOK = None;
+        sched::TASK_DRIVER = None;
     }
     core::mem::forget(rx);
     core::mem::forget(sut);
@@ -362,29 +371,98 @@ pub fn p_follow<const NH: usize, const NA: usize, const MODE: u8, const AT1: u32
 
 crate::scenarios! {
     unwind 50;
-    // <NH, NA, MODE, AT1, AT2>
-    p_follow_0_1_a0 => p_follow::<0, 1, 0, 0, 99>();
-    p_follow_0_1_a1 => p_follow::<0, 1, 0, 1, 99>();
-    p_follow_0_1_a3 => p_follow::<0, 1, 0, 3, 99>();
-    p_follow_1_1_a0 => p_follow::<1, 1, 0, 0, 99>();
-    p_follow_1_1_a1 => p_follow::<1, 1, 0, 1, 99>();
-    p_follow_1_1_a2 => p_follow::<1, 1, 0, 2, 99>();
-    p_follow_1_1_a3 => p_follow::<1, 1, 0, 3, 99>();
-    p_follow_1_1_a4 => p_follow::<1, 1, 0, 4, 99>();
-    p_follow_1_1_a6 => p_follow::<1, 1, 0, 6, 99>();
-    p_follow_2_1_a1 => p_follow::<2, 1, 0, 1, 99>();
-    p_follow_2_1_a2 => p_follow::<2, 1, 0, 2, 99>();
-    p_follow_1_2_a1_1 => p_follow::<1, 2, 0, 1, 1>();
-    p_follow_1_2_a1_1_xk => p_follow::<1, 2, 2, 1, 1>();
-    p_follow_1_2_a0_2_xk => p_follow::<1, 2, 2, 0, 2>();
-    p_follow_1_2_a1_4_xk => p_follow::<1, 2, 2, 1, 4>();
-    p_follow_1_2_a4_4_xk => p_follow::<1, 2, 2, 4, 4>();
-    p_follow_0_2_a0_0_xk => p_follow::<0, 2, 2, 0, 0>();
-    p_limit_1_1_a0 => p_follow::<1, 1, 1, 0, 99>();
-    p_limit_1_1_a1 => p_follow::<1, 1, 1, 1, 99>();
-    p_limit_1_1_a4 => p_follow::<1, 1, 1, 4, 99>();
-    p_limit_2_1_a4 => p_follow::<2, 1, 1, 4, 99>();
-    p_limit_0_2_a0_0_xk => p_follow::<0, 2, 3, 0, 0>();
-    p_limit_1_2_a1_4_xk => p_follow::<1, 2, 3, 1, 4>();
-    p_limit_1_2_a4_4_xk => p_follow::<1, 2, 3, 4, 4>();
+    nul_free_topics;
+    // <NH, NA, MODE, AT1, AT2, CFG>
+    p_follow_11_a0_c0 => p_follow::<1, 1, 0, 0, 99, 0x0>();
+    p_follow_11_a0_c400 => p_follow::<1, 1, 0, 0, 99, 0x400>();
+    p_follow_11_a0_c100 => p_follow::<1, 1, 0, 0, 99, 0x100>();
+    p_follow_11_a0_c500 => p_follow::<1, 1, 0, 0, 99, 0x500>();
+    p_follow_11_a1_c0 => p_follow::<1, 1, 0, 1, 99, 0x0>();
+    p_follow_11_a1_c400 => p_follow::<1, 1, 0, 1, 99, 0x400>();
+    p_follow_11_a1_c100 => p_follow::<1, 1, 0, 1, 99, 0x100>();
+    p_follow_11_a1_c500 => p_follow::<1, 1, 0, 1, 99, 0x500>();
+    p_follow_11_a2_c0 => p_follow::<1, 1, 0, 2, 99, 0x0>();
+    p_follow_11_a2_c400 => p_follow::<1, 1, 0, 2, 99, 0x400>();
+    p_follow_11_a2_c100 => p_follow::<1, 1, 0, 2, 99, 0x100>();
+    p_follow_11_a2_c500 => p_follow::<1, 1, 0, 2, 99, 0x500>();
+    p_follow_11_a3_c0 => p_follow::<1, 1, 0, 3, 99, 0x0>();
+    p_follow_11_a3_c400 => p_follow::<1, 1, 0, 3, 99, 0x400>();
+    p_follow_11_a3_c100 => p_follow::<1, 1, 0, 3, 99, 0x100>();
+    p_follow_11_a3_c500 => p_follow::<1, 1, 0, 3, 99, 0x500>();
+    p_follow_11_a4_c0 => p_follow::<1, 1, 0, 4, 99, 0x0>();
+    p_follow_11_a4_c400 => p_follow::<1, 1, 0, 4, 99, 0x400>();
+    p_follow_11_a4_c100 => p_follow::<1, 1, 0, 4, 99, 0x100>();
+    p_follow_11_a4_c500 => p_follow::<1, 1, 0, 4, 99, 0x500>();
+    p_follow_11_a6_c0 => p_follow::<1, 1, 0, 6, 99, 0x0>();
+    p_follow_11_a6_c400 => p_follow::<1, 1, 0, 6, 99, 0x400>();
+    p_follow_11_a6_c100 => p_follow::<1, 1, 0, 6, 99, 0x100>();
+    p_follow_11_a6_c500 => p_follow::<1, 1, 0, 6, 99, 0x500>();
+    p_follow_11_a1_c56 => p_follow::<1, 1, 0, 1, 99, 0x56>();
+    p_follow_11_a1_c16 => p_follow::<1, 1, 0, 1, 99, 0x16>();
+    p_follow_11_a1_c52 => p_follow::<1, 1, 0, 1, 99, 0x52>();
+    p_follow_11_a4_c56 => p_follow::<1, 1, 0, 4, 99, 0x56>();
+    p_follow_11_a4_c16 => p_follow::<1, 1, 0, 4, 99, 0x16>();
+    p_follow_11_a4_c52 => p_follow::<1, 1, 0, 4, 99, 0x52>();
+    p_follow_01_a0_c0 => p_follow::<0, 1, 0, 0, 99, 0x0>();
+    p_follow_01_a1_c0 => p_follow::<0, 1, 0, 1, 99, 0x0>();
+    p_follow_01_a3_c100 => p_follow::<0, 1, 0, 3, 99, 0x100>();
+    p_follow_11_a0_c1 => p_follow::<1, 1, 0, 0, 99, 0x1>();
+    p_follow_11_a1_c101 => p_follow::<1, 1, 0, 1, 99, 0x101>();
+    p_follow_21_a1_c8 => p_follow::<2, 1, 0, 1, 99, 0x8>();
+    p_follow_21_a2_c0 => p_follow::<2, 1, 0, 2, 99, 0x0>();
+    p_follow_21_a3_c100 => p_follow::<2, 1, 0, 3, 99, 0x100>();
+    p_follow_12_a0_0_c0 => p_follow::<1, 2, 0, 0, 0, 0x0>();
+    p_follow_12_a0_0_c300 => p_follow::<1, 2, 0, 0, 0, 0x300>();
+    p_follow_12_a0_0_c200 => p_follow::<1, 2, 0, 0, 0, 0x200>();
+    p_follow_12_a0_0_c100 => p_follow::<1, 2, 0, 0, 0, 0x100>();
+    p_follow_12_a1_1_c0 => p_follow::<1, 2, 0, 1, 1, 0x0>();
+    p_follow_12_a1_1_c300 => p_follow::<1, 2, 0, 1, 1, 0x300>();
+    p_follow_12_a1_1_c200 => p_follow::<1, 2, 0, 1, 1, 0x200>();
+    p_follow_12_a1_1_c100 => p_follow::<1, 2, 0, 1, 1, 0x100>();
+    p_follow_12_a0_2_c0 => p_follow::<1, 2, 0, 0, 2, 0x0>();
+    p_follow_12_a0_2_c300 => p_follow::<1, 2, 0, 0, 2, 0x300>();
+    p_follow_12_a0_2_c200 => p_follow::<1, 2, 0, 0, 2, 0x200>();
+    p_follow_12_a0_2_c100 => p_follow::<1, 2, 0, 0, 2, 0x100>();
+    p_follow_12_a1_4_c0 => p_follow::<1, 2, 0, 1, 4, 0x0>();
+    p_follow_12_a1_4_c300 => p_follow::<1, 2, 0, 1, 4, 0x300>();
+    p_follow_12_a1_4_c200 => p_follow::<1, 2, 0, 1, 4, 0x200>();
+    p_follow_12_a1_4_c100 => p_follow::<1, 2, 0, 1, 4, 0x100>();
+    p_follow_12_a4_4_c0 => p_follow::<1, 2, 0, 4, 4, 0x0>();
+    p_follow_12_a4_4_c300 => p_follow::<1, 2, 0, 4, 4, 0x300>();
+    p_follow_12_a4_4_c200 => p_follow::<1, 2, 0, 4, 4, 0x200>();
+    p_follow_12_a4_4_c100 => p_follow::<1, 2, 0, 4, 4, 0x100>();
+    p_follow_12_a2_2_c0 => p_follow::<1, 2, 0, 2, 2, 0x0>();
+    p_follow_12_a2_2_c300 => p_follow::<1, 2, 0, 2, 2, 0x300>();
+    p_follow_12_a2_2_c200 => p_follow::<1, 2, 0, 2, 2, 0x200>();
+    p_follow_12_a2_2_c100 => p_follow::<1, 2, 0, 2, 2, 0x100>();
+    p_limit_11_a0_c800 => p_follow::<1, 1, 1, 0, 99, 0x800>();
+    p_limit_21_a0_c800 => p_follow::<2, 1, 1, 0, 99, 0x800>();
+    p_limit_11_a1_c800 => p_follow::<1, 1, 1, 1, 99, 0x800>();
+    p_limit_21_a1_c800 => p_follow::<2, 1, 1, 1, 99, 0x800>();
+    p_limit_11_a4_c800 => p_follow::<1, 1, 1, 4, 99, 0x800>();
+    p_limit_21_a4_c800 => p_follow::<2, 1, 1, 4, 99, 0x800>();
+    p_limit_12_a1_4_c800 => p_follow::<1, 2, 1, 1, 4, 0x800>();
+    p_limit_12_a4_4_c800 => p_follow::<1, 2, 1, 4, 4, 0x800>();
+    p_limit_02_a0_0_c800 => p_follow::<0, 2, 1, 0, 0, 0x800>();
+    p_limit_11_a4_c900 => p_follow::<1, 1, 1, 4, 99, 0x900>();
+    p_limit_11_a0_c1000 => p_follow::<1, 1, 1, 0, 99, 0x1000>();
+    p_limit_21_a0_c1000 => p_follow::<2, 1, 1, 0, 99, 0x1000>();
+    p_limit_11_a1_c1000 => p_follow::<1, 1, 1, 1, 99, 0x1000>();
+    p_limit_21_a1_c1000 => p_follow::<2, 1, 1, 1, 99, 0x1000>();
+    p_limit_11_a4_c1000 => p_follow::<1, 1, 1, 4, 99, 0x1000>();
+    p_limit_21_a4_c1000 => p_follow::<2, 1, 1, 4, 99, 0x1000>();
+    p_limit_12_a1_4_c1000 => p_follow::<1, 2, 1, 1, 4, 0x1000>();
+    p_limit_12_a4_4_c1000 => p_follow::<1, 2, 1, 4, 4, 0x1000>();
+    p_limit_02_a0_0_c1000 => p_follow::<0, 2, 1, 0, 0, 0x1000>();
+    p_limit_11_a4_c1100 => p_follow::<1, 1, 1, 4, 99, 0x1100>();
+    p_limit_11_a0_c1800 => p_follow::<1, 1, 1, 0, 99, 0x1800>();
+    p_limit_21_a0_c1800 => p_follow::<2, 1, 1, 0, 99, 0x1800>();
+    p_limit_11_a1_c1800 => p_follow::<1, 1, 1, 1, 99, 0x1800>();
+    p_limit_21_a1_c1800 => p_follow::<2, 1, 1, 1, 99, 0x1800>();
+    p_limit_11_a4_c1800 => p_follow::<1, 1, 1, 4, 99, 0x1800>();
+    p_limit_21_a4_c1800 => p_follow::<2, 1, 1, 4, 99, 0x1800>();
+    p_limit_12_a1_4_c1800 => p_follow::<1, 2, 1, 1, 4, 0x1800>();
+    p_limit_12_a4_4_c1800 => p_follow::<1, 2, 1, 4, 4, 0x1800>();
+    p_limit_02_a0_0_c1800 => p_follow::<0, 2, 1, 0, 0, 0x1800>();
+    p_limit_11_a4_c1900 => p_follow::<1, 1, 1, 4, 99, 0x1900>();
 }
